@@ -515,7 +515,14 @@ fn perform_trials(
             }
             eval.try_image(image.clone());
             if let Some(result) = eval.get_best_candidate() {
-                eval_result = Some(result);
+                // The size limit only bounds the IDAT, so make sure this really is an improvement
+                let is_better = eval_result.as_ref().map_or(true, |prev| {
+                    (result.estimated_output_size, result.filter)
+                        < (prev.estimated_output_size, prev.filter)
+                });
+                if is_better {
+                    eval_result = Some(result);
+                }
             }
         }
 
